@@ -320,6 +320,48 @@ TABLE = [
  ("C17-cuckoo-equals-as-sets", "C17", "/tmp/wt5-C17", 2, ["C17"],
   "In-memory CuckooFilter.Equals compares buckets as sets, one direction.",
   "a bucket holding a duplicated fingerprint: x,x,y vs x,y,y equal; x,x vs x,y asymmetric"),
+ ("C02-redis-lookup-skips-second-when-first-has-room", "C02", "/tmp/wt6-C02", 1, ["C02"],
+  "CuckooFilterRedis.Lookup answers false without looking at the alternate bucket when the first bucket has a free slot.",
+  "Redis backend; an element stored in its alternate bucket, then a Remove that frees a slot of its first bucket, then Lookup"),
+ ("C02-bucket-remove-clears-every-copy", "C02", "/tmp/wt6-C02", 2, ["C02", "C13"],
+  "BucketMem.remove scans the slots without a break and clears every slot holding the fingerprint.",
+  "bucket size >= 2 and one bucket holding the same fingerprint twice (an element inserted twice), then one Remove"),
+ ("C04-admission-against-live-estimate", "C04", "/tmp/wt6-C04", 1, ["C04"],
+  "TopK.Insert admits against the sketch's current estimate of the weakest tracked entry instead of its stored count.",
+  "a narrow sketch in which another key shares a counter with the heap's root after the root was stored, then an insert whose estimate falls between the two"),
+ ("C04-redis-values-unstable-tie-order", "C04", "/tmp/wt6-C04", 2, ["C04"],
+  "TopKRedis.Values drops the element tie-break and relies on sort.Slice keeping ZRANGE's member order.",
+  "Redis backend, more than 12 reported entries (k >= 13) with at least two equal counts: sort.Slice switches from insertion sort to pdqsort"),
+ ("C08-redis-hll-hmean-as-lua-number", "C08", "/tmp/wt6-C08", 1, ["C08", "C05"],
+  "The Redis harmonic-mean script returns a Lua number (truncated to an integer reply) instead of a string.",
+  "registers with small values so that the harmonic sum has a fractional part that matters for the estimate"),
+ ("C08-redis-bloom-size-rounded-to-bytes", "C08", "/tmp/wt6-C08", 2, ["C08", "C01"],
+  "NewRedisBloomFilterWithParameters rounds the computed size up to a whole number of bytes.",
+  "parameters whose computed size is not a multiple of 8: positions are taken modulo different sizes in the two variants"),
+ ("C14-mem-undo-log-capped-at-512", "C14", "/tmp/wt6-C14", 1, ["C14"],
+  "The in-memory undo log is allocated once with capacity 512 and records nothing beyond it.",
+  "retries > 512 on a saturated filter with a few hundred slots, so that the failing walk reaches some slot for the first time after its 512th step"),
+ ("C14-undo-slot-index-uint8", "C14", "/tmp/wt6-C14", 2, ["C14"],
+  "The undo-log record stores the slot inside the bucket as uint8 (type in the base file, casts in both backends).",
+  "bucket size > 256, saturated filter, a failing non-destructive insert whose walk evicts from a slot >= 256"),
+ ("C15-bloom-index-mod-after-float", "C15", "/tmp/wt6-C15", 1, ["C15", "C01"],
+  "Bloom getIndex takes the modulo after the float64 round trip of the 64-bit sum.",
+  "sums above 2^53 lose their low bits: probe positions cluster on multiples of a power of two, false-positive rate far above the budget"),
+ ("C15-cms-rows-from-confidence", "C15", "/tmp/wt6-C15", 2, ["C15"],
+  "NewCountMinSketchFromEstimates reads delta as a confidence level: rows = ceil(ln(1/(1-delta))).",
+  "any small delta: one row instead of several, over-estimates above eps*N far more often than delta"),
+ ("C18-bucket-readfrom-seeks-over-empty", "C18", "/tmp/wt6-C18", 1, ["C18", "C11"],
+  "BucketMem.readFrom steps over the slots of an empty bucket with Seek when the reader can seek.",
+  "the last bucket of the filter is empty, the image is cut inside that bucket's slot area and is read through a seekable reader"),
+ ("C18-cuckoo-readfrom-empty-short-circuit", "C18", "/tmp/wt6-C18", 2, ["C18", "C11"],
+  "CuckooFilter.ReadFrom returns right after the header when the header says length 0.",
+  "a filter holding no element (fresh, or drained by removes); any cut after the 40-byte header is accepted"),
+ ("C19-topk-import-merges-live-rows", "C19", "/tmp/wt6-C19", 1, ["C19", "C10"],
+  "TopKRedis.Import under new keys fills the copy's sketch from the rows currently stored under the exporter's key instead of the document.",
+  "Export of A, at least one Insert on A, then Import(doc, true) into another Top-K and an operation of the copy that consults its sketch"),
+ ("C19-hll-import-new-key-suffix", "C19", "/tmp/wt6-C19", 2, ["C19"],
+  "HyperLogLogRedis.Import builds its new key as <exported key>_ (an empty slice of the random string).",
+  "two different sketches that both import, under new keys, documents of the same origin: they share one register list"),
 ]
 
 
